@@ -106,6 +106,7 @@ def gen_configs(rng, tier):
                "repeat": rng.choice([1, 1, 2, 3]) if api == "object" else 1,
                "fluxes": True if api == "sample" else rng.random() < 0.55,
                "nproj": None if api == "sample" else rng.choice([None, None, 1, 3, 7])}
+        cfg["decoy"] = api == "object" and len(cfgs) % 3 == 0       # see draw(): a second sampler built in between
         cfgs.append(cfg)
     return cfgs
 
@@ -307,6 +308,16 @@ def run_instance(inst):
             return None, sample(m, cfg["n"], method=cfg["method"], thinning=cfg["thinning"],
                                 processes=cfg["processes"], seed=cfg["seed"])
         s = make(cfg)
+        if cfg.get("decoy"):
+            # another sampler, for a model with the same variables and WIDER bounds, is built before the first one is
+            # used: samplers must not share state (a sample of `s` belongs to the model `s` was built for)
+            try:
+                m2 = m.copy()
+                for r2 in m2.reactions:
+                    r2.bounds = (2 * r2.lower_bound - 1, 2 * r2.upper_bound + 1)
+                (ACHRSampler if cfg["method"] == "achr" else OptGPSampler)(m2, thinning=1, seed=7)
+            except Exception:  # noqa  (the decoy itself may be refused)
+                pass
         import pandas as pd
         dfs = [s.sample(cfg["n"], fluxes=cfg["fluxes"]) for _ in range(cfg.get("repeat", 1))]
         return s, (dfs[0] if len(dfs) == 1 else pd.concat(dfs, ignore_index=True))
